@@ -7,6 +7,7 @@ import (
 	"os"
 	"os/exec"
 	"path/filepath"
+	"runtime"
 	"strings"
 	"sync"
 	"time"
@@ -41,12 +42,44 @@ var (
 	runTimesMu sync.Mutex
 )
 
+// loadFactor: how oversubscribed the machine is right now (runnable tasks per core, from /proc/loadavg; at least 1).
+// Solver limits are wall-clock; when several checks (or anything else) share the cores, a solver gets a fraction of a
+// core, so the limit is stretched by that factor - a busy machine must not turn into a failed proof. The instantaneous
+// count of runnable tasks (4th field) reacts at once, the 1-minute average smooths it; the larger of the two is used.
+func loadFactor() int {
+	b, err := os.ReadFile("/proc/loadavg")
+	if err != nil {
+		return 1
+	}
+	f := strings.Fields(string(b))
+	if len(f) < 4 {
+		return 1
+	}
+	var avg float64
+	fmt.Sscanf(f[0], "%f", &avg)
+	var running, total int
+	fmt.Sscanf(f[3], "%d/%d", &running, &total)
+	n := float64(runtime.NumCPU())
+	x := avg / n
+	if y := float64(running) / n; y > x {
+		x = y
+	}
+	if x < 1 {
+		return 1
+	}
+	if x > 40 {
+		x = 40
+	}
+	return int(x + 0.999)
+}
+
 func runSolver(ctx context.Context, sp solverSpec, file string, secs int) (string, string) {
 	solverSem <- struct{}{}
 	defer func() { <-solverSem }()
 	if ctx.Err() != nil {
 		return "cancelled", ""
 	}
+	secs *= loadFactor()
 	t0 := time.Now()
 	defer func() {
 		runTimesMu.Lock()
